@@ -54,6 +54,14 @@ theorem parse_render_Command (pr : Profile) (m : CommandM) (st : St F) :
   simp [parseElem, CommandM.render, pNodeDatas, onChild, P.bind_def, pCommand_render]
   rfl
 
+theorem parse_render_Boolean (pr : Profile) (m : BooleanM) (st : St F) :
+    parseElem pr m.render st = .ok ([.boolean (specBoolean m st).1], (specBoolean m st).2) := by
+  simp [parseElem, BooleanM.render, pNodeDatas, onChild, P.bind_def, pBoolean_render, pure_apply]
+
+theorem parse_render_Integer (pr : Profile) (m : IntegerM) (st : St F) :
+    parseElem pr m.render st = .ok ([.integer (specInteger m st).1], (specInteger m st).2) := by
+  simp [parseElem, IntegerM.render, pNodeDatas, onChild, P.bind_def, pInteger_render, pure_apply]
+
 /-! ## literals -/
 
 /-- whatever `convert_to_int` accepts is taken as an immediate by the `ImmOrPNode` sniffing -/
